@@ -259,7 +259,14 @@ def bvLine (impl : String) (par n : Nat) (h : String) : String :=
     else s1plain.map some
   let s1txt := if s1 == s1plain.map some then joinNat s1plain
     else "MODEL-DIFFERS-FROM-PLAIN:" ++ joinNat (s1.map fun o => o.getD 4000000000)
-  s!"BV n={n} acc={acc} r1={joinNat r1} r0={joinNat r0} s1={s1txt} s0={joinNat (positionsOf bits false)} cnt={bits.count true}"
+  -- select0 through the exact model of BitSequenceRG::select0
+  let s0plain := positionsOf bits false
+  let s0 := if impl == "rg" && par > 0 then
+      (List.range (n - total)).map fun j => RG.select0 (words.take (n / 32 + 1)) par n total (j + 1)
+    else s0plain.map some
+  let s0txt := if s0 == s0plain.map some then joinNat s0plain
+    else "MODEL-DIFFERS-FROM-PLAIN:" ++ joinNat (s0.map fun o => o.getD 4000000000)
+  s!"BV n={n} acc={acc} r1={joinNat r1} r0={joinNat r0} s1={s1txt} s0={s0txt} cnt={bits.count true}"
 
 def wtLine (syms : String) : String :=
   let seq := (splitComma syms).map fun x => x.toNat?.getD 0
